@@ -45,7 +45,10 @@ def one(rng, regs, b, mode, nops):
             ops.append(['get'])
     ops.append(['get'])
     total = sum(nb(s, e, b) for _, s, e in regs)
-    for i in range(min(total, 40) + 4):
+    idxs = list(range(min(total, 40) + 4))
+    if rng.random() < 0.5:
+        rng.shuffle(idxs)                      # lookups in arbitrary (also descending) order
+    for i in idxs:
         ops.append(['getregion', i]); ops.append(['getchrom', i])
     if total > 40:
         for i in (total - 1, total, total + 1):
@@ -60,13 +63,18 @@ def gen(rng, tier):
         regs = R.rand_regions(rng, mode, rng.choice([0, 1, 1, 2, 3, 5]), 'ne', rng.choice([1, 2]))
         if regs and rng.random() < 0.3:
             regs.insert(rng.randint(0, len(regs)), rng.choice(regs))
+        if mode == 'medium' and rng.random() < 0.4:
+            # more than 16 regions on one chromosome, one of them starting at coordinate 0
+            c0 = R.chrom(rng)
+            regs = [(c0, 0, rng.randint(20, 90))] + [(c0, x, x + rng.randint(5, 60)) for x in sorted(rng.sample(range(1, 800), rng.choice([17, 24, 33])))]
+            rng.shuffle(regs)
         if mode == 'wide':
             # keep the number of bins small: big bins only
             b = rng.choice([W64, W64 - 1, 2**63, 2**62 + 3])
             regs = [(c, s, e) for (c, s, e) in regs if (e - s) // b < 50]
         else:
             L = (regs[0][2] - regs[0][1]) if regs else 5
-            b = rng.choice([1, 1, 2, 3, L, max(1, L - 1), L + 1, max(1, L // 2), 7, W64])
+            b = rng.choice([1, 1, 2, 3, L, max(1, L - 1), L + 1, max(1, L // 2), 7, W64]) if len(regs) < 10 else rng.choice([7, 10, 25, max(1, L // 2), L + 1])
         ops, nt = one(rng, regs, b, mode, rng.randint(2, 12))
         yield Case(sx.dump(['bcov', b, ['regs'] + [[R.h(c), s, e] for c, s, e in regs], ['ops'] + ops]), nt, mode)
     if tier == 'thorough':
